@@ -122,6 +122,25 @@ async def run_scenario(sc):
     main._last_time = 0
     main._update_lock = None
 
+    # a restore of the ports backup that is refused (a virtual port definition the schema rejects) before the scenario starts:
+    # polling and expression evaluation are switched off during the restore and must be on again afterwards
+    restore_outcome = None
+    if sc.get('failed_restore_first'):
+        import types
+        from qtoggleserver.core import api as core_api
+        from qtoggleserver.core.api.funcs import ports as api_ports
+        settings.core.backup_support = True
+        handler = types.SimpleNamespace(access_level=core_api.ACCESS_LEVEL_ADMIN, username='c01',
+                                        request=types.SimpleNamespace(headers={}, method='PUT', path='/ports', body=b'',
+                                                                      query_arguments={}))
+        try:
+            await api_ports.put_ports(handler, [{'id': 'vbad', 'virtual': True, 'type': 'no-such-type'}])
+            restore_outcome = 'accepted'
+        except core_api.APIError as e:
+            restore_outcome = '%s %s' % (e.status, e.code)
+        except Exception as e:  # noqa
+            restore_outcome = 'raised %s' % type(e).__name__
+
     kinds = {}
     args = []
     for ps in sc['ports']:
@@ -236,7 +255,7 @@ async def run_scenario(sc):
     core_ports._ports_by_id.clear()
     events_handlers._registered_handlers[:] = []
     core_ports.BasePort._eval_and_write = orig_eaw
-    return {'ports': out, 'quiescent': quiescent, 'error': error, 'armed_left': len(armed)}
+    return {'ports': out, 'quiescent': quiescent, 'error': error, 'armed_left': len(armed), 'restore_outcome': restore_outcome}
 
 
 if __name__ == '__main__':
